@@ -914,3 +914,4 @@ EXPLANATION += (' Round 7: ' + 'GEN/steps-by-decoding (every labels_to_num_steps
 EXPLANATION += (' Rounds 9-10: ' + 'PITFALL/unforwarded-parameter over the encoder classes (constructors and base constructors resolved through the hierarchy).')
 EXPLANATION += (' Round 11: ' + 'DEFAULT/event-of-the-encoding; PITFALL/falsy-domain-zero over the encoders; SIZE/slice-store-width.')
 EXPLANATION += (' Round 12: ' + 'PITFALL/unzip-empty; SIZE answers cannot-classify when the offset is moved by a helper.')
+EXPLANATION += (' Round 14: ' + 'GEN/steps-by-decoding/last-label.')
